@@ -178,6 +178,45 @@ static int family_bounds(int shard, int nshards)
         return 0;
 }
 
+/* implicit-write command with variables: the argument text is everything after the name, '=' included */
+static const char ALPHA_I[] = "=+-0159xXaF, ?";
+static int family_implicit(int maxlen, int shard, int nshards)
+{
+        int idx = 0;
+        for (int ti = 0; ti < 3; ti++)
+                for (int nv = 1; nv <= 2; nv++)
+                        for (int first = 0; first < 14; first++, idx++) {
+                                if (idx % nshards != shard) continue;
+                                struct wcmd *c = sw_table(2);
+                                strcpy(c[0].name, "N");
+                                c[0].hmask = (idx & 1) ? HM_W : 0; c[0].implicit = 1; c[0].nvar = (uint8_t)nv;
+                                for (int i = 0; i < nv; i++) setvar(&c[0].var[i], i == 0 ? TYPES[ti] : CAT_VAR_UINT_DEC, i == 0 ? 1 : 2, CAT_VAR_ACCESS_READ_WRITE);
+                                strcpy(c[1].name, "NX"); c[1].hmask = HM_U | HM_W;      /* a command whose name extends the implicit one */
+                                sw_caps(16, idx % 3);
+                                W.line_max = 60; W.mon = P_ALL;
+                                world_build();
+                                snprintf(SW.extra, sizeof SW.extra, "family=implicit type=%c nvar=%d", TCH[ti], nv);
+                                char t[16]; int cnt[16];
+                                for (int len = 1; len <= maxlen; len++) {
+                                        memset(cnt, 0, sizeof cnt);
+                                        cnt[0] = first;
+                                        for (;;) {
+                                                uint8_t line[40]; int n = 0;
+                                                line[n++] = 'A'; line[n++] = 'T'; line[n++] = 'N';
+                                                for (int i = 0; i < len; i++) { t[i] = ALPHA_I[cnt[i]]; line[n++] = (uint8_t)t[i]; }
+                                                line[n++] = '\n';
+                                                SW.cases++;
+                                                if (sw_line(line, n)) return 1;
+                                                int k = len - 1;
+                                                while (k >= 1 && ++cnt[k] == 14) { cnt[k] = 0; k--; }
+                                                if (k < 1) break;
+                                        }
+                                        if (sw_expired()) return 0;
+                                }
+                        }
+        return 0;
+}
+
 /* digit counts around 2^8 and 2^16 (and their multiples): well-formed, in-range values with that many digits */
 static int family_huge(int shard, int nshards)
 {
@@ -223,6 +262,7 @@ int main(int argc, char **argv)
         int maxlen = sw_argi(argc, argv, "--maxlen", 4);
         int r;
         if (!strcmp(fam, "huge")) r = family_huge(SW.shard, SW.nshards);
+        else if (!strcmp(fam, "implicit")) r = family_implicit(maxlen, SW.shard, SW.nshards);
         else if (!strcmp(fam, "all")) r = family_all(maxlen, SW.shard, SW.nshards);
         else r = family_bounds(SW.shard, SW.nshards);
         (void)r;
